@@ -216,12 +216,14 @@ fn const_boundary_program(rng: &mut Rng) -> String {
     const OPERANDS: &[&str] = &[
         "0", "1", "2", "7", "31", "32", "33", "63", "64", "65", "127", "128", "129", "200", "255", "256", "65535", "65536", "2147483647", "2147483648", "4294967295",
         "4294967296", "9223372036854775807", "9223372036854775808", "18446744073709551615", "0x7FFFFFFF", "0x80000000", "0xFFFFFFFF", "1u", "31u", "32u", "128u", "4294967295u",
-        "(int)-1", "(int)-2147483647 - 1", "(uint)-1", "-1", "-128", "-2147483648", "1.0f", "0.0f", "-0.0f", "1e38f", "1e39", "1.#INF", "0.5h", "65504.0h", "1.0L", "true", "false",
+        "(int)-1", "(int)-2147483647 - 1", "(uint)-1", "(int)2147483647", "(int)0x7FFFFFFF", "(uint)0xFFFFFFFF", "-1", "-128", "-2147483648", "1.0f", "0.0f", "-0.0f", "1e38f", "1e39", "1.#INF", "0.5h", "65504.0h", "1.0L", "true", "false",
     ];
     const BINARY: &[&str] = &["+", "-", "*", "/", "%", "<<", ">>", "&", "|", "^", "&&", "||", "<", "<=", ">", ">=", "==", "!="];
     const UNARY: &[&str] = &["", "", "", "-", "~", "!", "+"];
     let mut e = format!("{}{}", rng.pick(UNARY), rng.pick(OPERANDS));
-    for _ in 0..1 + rng.below(2) {
+    // (a single operand in one case out of four: a boundary value reaches the position unchanged)
+    let operators = if rng.chance(1, 4) { 0 } else { 1 + rng.below(2) };
+    for _ in 0..operators {
         let rhs = format!("{}{}", rng.pick(UNARY), rng.pick(OPERANDS));
         e = if rng.chance(1, 2) { format!("({} {} {})", e, rng.pick(BINARY), rhs) } else { format!("({} {} {})", rhs, rng.pick(BINARY), e) };
     }
@@ -229,17 +231,29 @@ fn const_boundary_program(rng: &mut Rng) -> String {
         e = format!("({} ? {} : {})", e, rng.pick(OPERANDS), rng.pick(OPERANDS));
     }
     let ty = *rng.pick(&["int", "uint", "float", "half", "bool", "double"]);
-    match rng.below(10) {
+    let position = rng.below(11);
+    if position >= 9 && rng.chance(1, 2) {
+        // enumerations that start at the edge of a type and continue implicitly
+        const EDGES: &[&str] = &["4294967295u", "0xFFFFFFFFu", "(uint)-1", "(int)2147483647", "(int)0x7FFFFFFF", "2147483647", "4294967295", "4294967294u", "(int)2147483646", "true", "-2147483648", "(int)-2147483647 - 1"];
+        e = rng.pick(EDGES).to_string();
+    }
+    match position {
         0 => format!("static const {} k = {};\nfloat a[k];\n", ty, e),
         1 => format!("static float a[{}];\n", e),
-        2 => format!("enum E {{ A = {}, B, C }};\nstatic const int n = (int)C;\n", e),
+        9 | 10 => match rng.below(4) {
+            0 => format!("enum E {{ A = {}, B, C }};\nstatic const int n = (int)C;\n", e),
+            1 => format!("enum E {{ A = {}, B, C = B, D }};\nstatic const uint n = (uint)D;\n", e),
+            2 => format!("enum E0 {{ X = {} }};\nenum E {{ A = X, B, C, D = B }};\nfloat a[D == B ? 2 : 1];\n", e),
+            _ => format!("enum class E {{ A = {}, B, C, D }};\nvoid f(E v) {{ switch (v) {{ case E::D: break; default: break; }} }}\n", e),
+        },
         3 => format!("[numthreads({}, 1, 1)]\nvoid main() {{}}\nPipeline P {{ ComputeShader = main; }}\n", e),
         4 => format!("void f(int v) {{ switch (v) {{ case {}: break; default: break; }} }}\n", e),
         5 => format!("void f() {{ assert_eval<{}>({}, ({})0); }}\n", ty, e, ty),
         6 => format!("void f() {{ const {} k = {}; {} a[2]; a[k] = ({})1; }}\n", ty, e, ty, ty),
         7 => format!("template<typename T> T g(T v) {{ return v; }}\nvoid f() {{ [unroll({})] for (int i = 0; i < 2; ++i) {{ g(i); }} }}\n", e),
         8 => format!("static const {}2 k = {}2({}, {});\nstatic const {} m = k.y;\nfloat a[(int)m + 1];\n", ty, ty, e, rng.pick(OPERANDS), ty),
-        _ => format!("struct S {{ {} v[{}]; }};\nstatic const uint n = sizeof(S);\n", ty, e),
+        2 => format!("struct S {{ {} v[{}]; }};\nstatic const uint n = sizeof(S);\n", ty, e),
+        _ => unreachable!(),
     }
 }
 
